@@ -40,6 +40,12 @@ Nine legs, each an exhaustive enumeration of a stated bounded space on the real 
              with the appends of leg (1) on the SAME files.  Oracle: after every step the directory equals the reference
              model (live record list + generations .1..N per stream): appends that follow a compaction / rotation land in
              the live file of the stream, generations are not touched by later appends.
+(9) addressing E2 HOW a stream is named: legs (3), (4) and (6) are repeated (shorter histories) with the stream handed
+             over as a PATH — "./NAME", "dir/NAME", "d1/<another stream's name>/NAME", an absolute path, and for the stager
+             a different addressing per stream.  Oracle: unchanged — the stream's name (stage ordinal, identity class) is
+             the basename of the path (documented for default_key_for and rewrite_jsonl), the path only decides where
+             the lines land.  A violating path-addressed run is re-run under bare names (differential twin): signatures
+             the twin does not produce are marked ``:path-addressed``.
 Leg (4) also varies HOW the records are handed to ``rewrite_jsonl`` (``Iterable[dict]``: list, tuple, dict view, one-shot
 iterator, generator, generator streaming the file being compacted).
 """
@@ -705,6 +711,38 @@ def _append_worker(chunk, st: Stats):
 
 
 # =====================================================================================================
+# (9) addressing — HOW a stream is named when it is handed to an entry point that takes a stream path
+# =====================================================================================================
+# Every entry point that takes a stream (default_key_for / LogStager.stage, append_jsonl, _append_jsonl_unbuffered,
+# rewrite_jsonl, LogMux) takes a PATH that is joined onto the logs directory; the stream's NAME — which selects its stage
+# ordinal and whether it is an identity stream — is documented as the basename of that path (default_key_for: "derived
+# from the basename of file_path"; rewrite_jsonl: "using the file's basename").  So a path with directory components, a
+# "./" prefix or an absolute path changes WHERE the lines land and nothing else.  The directories are provided by the
+# harness (the writers are only documented to create the logs directory itself).
+ADDRS = ("bare", "dot", "sub", "nested", "abs")
+ABS_PLACEHOLDER = "/c16-abs-root"          # capture-only runs never touch the file system
+
+
+def _addr_path(addr, name, root):
+    """the path under which stream ``name`` is addressed; ``root`` = the logs directory (for absolute addressing)"""
+    if addr == "bare":
+        return name
+    if addr == "dot":
+        return "./" + name
+    if addr == "sub":
+        return "part-07/" + name
+    if addr == "nested":
+        return "n1/scheduler.jsonl/" + name        # a directory component that looks like another stream's name
+    if addr == "abs":
+        return os.path.join(root or ABS_PLACEHOLDER, "abs", name)
+    raise HarnessError("addressing %r" % (addr,))
+
+
+def _addr_mkdirs(logdir, fp):
+    os.makedirs(os.path.dirname(os.path.join(logdir, fp)), exist_ok=True)
+
+
+# =====================================================================================================
 # (3) LogStager under the drain -> flush -> retry protocol
 # =====================================================================================================
 ST_TURNS = (1, 2)
@@ -729,7 +767,19 @@ def _st_payload(j, cell):
     return p
 
 
-def _drive_stager(cells, payloads, limit, flush):
+# stager addressing: one of ADDRS for every stream of the history, or "mixed" = a different addressing per stream
+ST_ADDRS = ADDRS + ("mixed",)
+ST_MIXED = {"t1.jsonl": "sub", "turn.jsonl": "bare", "zz_custom.jsonl": "abs"}
+
+
+def _st_fpmap(addr, root):
+    """stream name -> the path it is staged / written under"""
+    if addr == "mixed":
+        return {s: _addr_path(ST_MIXED[s], s, root) for s in ST_STREAMS}
+    return {s: _addr_path(addr, s, root) for s in ST_STREAMS}
+
+
+def _drive_stager(cells, payloads, limit, flush, fpmap=None):
     """The documented protocol of orchestrator/parallel.py: stage; on LOG_STAGING_BACKPRESSURE drain_sorted -> flush
     -> retry exactly once (a second failure propagates).  Returns (status, drains, failing index)."""
     iol.disable_staging()
@@ -738,10 +788,11 @@ def _drive_stager(cells, payloads, limit, flush):
     try:
         for j, cell in enumerate(cells):
             t, s, sl = cell
-            key = iol.default_key_for(file_path=s, turn_id=t, slice_idx=sl)
+            fp = fpmap[s] if fpmap else s
+            key = iol.default_key_for(file_path=fp, turn_id=t, slice_idx=sl)
             payload = dict(payloads[j])
             try:
-                stager.stage(s, key, payload)
+                stager.stage(fp, key, payload)
             except RuntimeError as exc:
                 if str(exc) != "LOG_STAGING_BACKPRESSURE":
                     raise
@@ -749,7 +800,7 @@ def _drive_stager(cells, payloads, limit, flush):
                 for rec in stager.drain_sorted():
                     flush(rec)
                 try:
-                    stager.stage(s, key, payload)
+                    stager.stage(fp, key, payload)
                 except RuntimeError as exc2:
                     if str(exc2) != "LOG_STAGING_BACKPRESSURE":
                         raise
@@ -761,14 +812,15 @@ def _drive_stager(cells, payloads, limit, flush):
         iol.disable_staging()
 
 
-def _estimates(cells, payloads):
+def _estimates(cells, payloads, fpmap=None):
     """size estimates as the implementation reports them (StagedRecord.bytes_estimate), in arrival order"""
     iol.disable_staging()
     stager = iol.enable_staging(byte_limit=BIG)
     try:
         for j, cell in enumerate(cells):
             t, s, sl = cell
-            stager.stage(s, iol.default_key_for(file_path=s, turn_id=t, slice_idx=sl), dict(payloads[j]))
+            fp = fpmap[s] if fpmap else s
+            stager.stage(fp, iol.default_key_for(file_path=fp, turn_id=t, slice_idx=sl), dict(payloads[j]))
         recs = sorted(stager.drain_sorted(), key=lambda r: r.key.seq)
         if len(recs) != len(cells):
             raise HarnessError("stager lost records under the default limit while measuring estimates")
@@ -796,12 +848,15 @@ def _per_file_monotone(cells):
 
 
 class _StagerPrep:
-    """everything about one arrival sequence that does not depend on the limit (expected orders from the statement)"""
+    """everything about one arrival sequence that does not depend on the limit (expected orders from the statement).
+    ``addr``: how the streams are addressed; the expected orders do not depend on it (stage order and identity
+    normalisation belong to the stream's NAME = basename of the path)."""
 
-    def __init__(self, cells):
+    def __init__(self, cells, addr="bare"):
         self.cells = cells
+        self.addr = addr
         self.payloads = [_st_payload(j, c) for j, c in enumerate(cells)]
-        self.ests = _estimates(cells, self.payloads)
+        self.ests = _estimates(cells, self.payloads, None if addr == "bare" else _st_fpmap(addr, None))
         n = len(cells)
         self.want_ids = sorted((c[1], j) for j, c in enumerate(cells))
         self.want_file = {}
@@ -831,10 +886,16 @@ def _stager_run(prep, limit, mode, logdir):
 
 
 def _stager_run_in(prep, limit, mode, logdir):
-    cells, ests = prep.cells, prep.ests
+    cells, ests, addr = prep.cells, prep.ests, prep.addr
+    fpmap = _st_fpmap(addr, logdir if mode == "files" else None)
+    inv = {fp: s for s, fp in fpmap.items()}
     out = []
     if mode == "files":
         from clematis.engine.orchestrator.logging import _append_unbuffered
+
+        if addr != "bare":
+            for fp in fpmap.values():
+                _addr_mkdirs(logdir, fp)
 
         def flush(rec):
             out.append((rec.file_path, None))
@@ -843,12 +904,13 @@ def _stager_run_in(prep, limit, mode, logdir):
         def flush(rec):
             out.append((rec.file_path, rec.payload))
     try:
-        status, drains, jfail = _drive_stager(cells, prep.payloads, limit, flush)
+        status, drains, jfail = _drive_stager(cells, prep.payloads, limit, flush, None if addr == "bare" else fpmap)
     except Exception as e:
-        return [("stager:raises:%s" % type(e).__name__, "cells %r limit %d: %r" % (cells, limit, e))], "raises"
+        return [("stager:raises:%s" % type(e).__name__, "cells %r limit %d addressing %s: %r" % (cells, limit, addr, e))], "raises"
 
     def desc():
-        return "arrival %r limit %d (estimates %r)" % ([list(c) for c in cells], limit, ests)
+        return "arrival %r limit %d (estimates %r)%s" % ([list(c) for c in cells], limit, ests,
+                                                          "" if addr == "bare" else " streams addressed as %r" % (sorted(fpmap.values()),))
     if status == "retry-raised":
         if ests[jfail] > limit:
             return [("stager:limit<record", desc() + ": record #%d (estimate %d) is refused by an EMPTY stager after "
@@ -856,12 +918,14 @@ def _stager_run_in(prep, limit, mode, logdir):
                      % (jfail, ests[jfail]))], "limit<record"
         return [("stager:retry-raised:record-fits", desc() + ": retry of record #%d raised although estimate %d <= limit"
                  % (jfail, ests[jfail]))], "retry-raised"
-    # what reached the files, per file
+    # what reached the files, per stream (the flushed record names the path it was staged under)
+    if any(fp not in inv for fp, _ in out):
+        return [("stager:lost-or-misfiled", desc() + ": flushed to %r" % (sorted({fp for fp, _ in out if fp not in inv}),))], "lost"
     per_file = {}
     flat = None
     if mode == "files":
         for s in ST_STREAMS:
-            p = os.path.join(logdir, s)
+            p = os.path.join(logdir, fpmap[s])
             if os.path.exists(p):
                 with open(p, "rb") as fh:
                     raw = fh.read()
@@ -869,12 +933,12 @@ def _stager_run_in(prep, limit, mode, logdir):
                     return [("stager:file-not-LF-terminated", desc())], "bad-file"
                 per_file[s] = [json.loads(x.decode("utf-8")) for x in raw.split(b"\n")[:-1]]
     else:
-        for fp, pl in out:
-            per_file.setdefault(fp, []).append(pl)
-        flat = out
+        flat = [(inv[fp], pl) for fp, pl in out]
+        for s, pl in flat:
+            per_file.setdefault(s, []).append(pl)
     res = []
     try:
-        ids = sorted((fp, pl["id"]) for fp, v in per_file.items() for pl in v)
+        ids = sorted((s, pl["id"]) for s, v in per_file.items() for pl in v)
     except Exception:
         return [("stager:payload-changed", desc() + ": a flushed payload lost its id")], "payload"
     if ids != prep.want_ids:
@@ -883,16 +947,19 @@ def _stager_run_in(prep, limit, mode, logdir):
         else:
             res.append(("stager:lost-or-misfiled", desc() + ": flushed %r expected %r" % (ids, prep.want_ids)))
         return res, "lost"
-    # payload = the record (identity-normalised for identity streams under CI, exactly as a direct append writes it)
-    for fp, v in per_file.items():
+    # payload = the record (identity-normalised for identity streams under CI, exactly as a direct append writes it).
+    # For a path-addressed stream the normalisation is only required of what reaches the FILE (the writer normalises by
+    # basename); a staged-but-unwritten payload may still be the record as given.
+    for s, v in per_file.items():
         for pl in v:
             j = pl["id"]
             text = Jo(pl)
             if prep.valid.get(j) == text:
                 continue  # this exact payload text was already validated for record j
-            if norm_clauses(fp, prep.payloads[j], pl, True):
-                res.append(("stager:payload-changed", desc() + ": record #%d of %s flushed as %s" % (j, fp, Jo(pl))))
-                return res, "payload"
+            if norm_clauses(s, prep.payloads[j], pl, True):
+                if not (addr != "bare" and mode != "files" and text == Jo(prep.payloads[j])):
+                    res.append(("stager:payload-changed", desc() + ": record #%d of %s flushed as %s" % (j, s, Jo(pl))))
+                    return res, "payload"
             prep.valid[j] = text
     order_ok = True
     for s, v in per_file.items():
@@ -910,17 +977,27 @@ def _stager_run_in(prep, limit, mode, logdir):
                         % (s, got, want, drains)))
             break
     if order_ok and flat is not None and drains == 0:
-        got = [(fp, pl["id"]) for fp, pl in flat]
+        got = [(s, pl["id"]) for s, pl in flat]
         if got != prep.want_flat:
             res.append(("stager:order:single-drain:cross-stream", desc() + ": single flush order %r, (turn, stage, slice, arrival) order is %r"
                         % (got, prep.want_flat)))
     return res, (("ok-drains" if drains else "ok-single") if not res else "order")
 
 
+def _stager_classify(res, prep, bare_prep, limit, mode, logdir):
+    """differential twin for a path-addressed run that violates: a signature the SAME history also produces under bare
+    names is not an addressing matter and keeps its name; the others are marked ':path-addressed'"""
+    if not res or prep.addr == "bare":
+        return res
+    twin = {sig for sig, _ in _stager_run(bare_prep, limit, mode, logdir)[0]}
+    return [(sig if sig in twin else sig + ":path-addressed", what) for sig, what in res]
+
+
 def check_stager(case):
-    """case: {kind:stager, cells:[[turn,stream,slice],...], limit, mode: capture|files}"""
+    """case: {kind:stager, cells:[[turn,stream,slice],...], limit, mode: capture|files, addr?: one of ST_ADDRS}"""
     cells = tuple(tuple(c) for c in case["cells"])
     mode = case.get("mode", "capture")
+    addr = case.get("addr", "bare")
     old_ci, old_dir = os.environ.get("CI"), os.environ.get("CLEMATIS_LOG_DIR")
     _set_ci("true")
     own = None
@@ -928,7 +1005,11 @@ def check_stager(case):
         if mode == "files":
             own = tempfile.mkdtemp(prefix="c16s", dir="/dev/shm" if os.path.isdir("/dev/shm") else None)
             os.environ["CLEMATIS_LOG_DIR"] = own
-        return _stager_run(_StagerPrep(cells), int(case["limit"]), mode, own)
+        prep = _StagerPrep(cells, addr)
+        res, outcome = _stager_run(prep, int(case["limit"]), mode, own)
+        if res and addr != "bare":
+            res = _stager_classify(res, prep, _StagerPrep(cells), int(case["limit"]), mode, own)
+        return res, outcome
     finally:
         _set_ci(old_ci)
         if own:
@@ -939,9 +1020,9 @@ def check_stager(case):
             shutil.rmtree(own, ignore_errors=True)
 
 
-def _stager_worker(chunk, st: Stats, nmax, nfiles, scratch):
-    """chunk: list of (first cell index, second cell index | None) prefixes — the worker enumerates every arrival
-    sequence with that prefix"""
+def _stager_worker(chunk, st: Stats, scratch):
+    """chunk: list of (first cell index, second cell index | None, addressing, max records, max records through the real
+    writer) — the worker enumerates every arrival sequence with that prefix"""
     logdir = os.path.join(scratch, "stg-%d" % os.getpid())
     os.makedirs(logdir, exist_ok=True)
     old_ci, old_dir = os.environ.get("CI"), os.environ.get("CLEMATIS_LOG_DIR")
@@ -949,7 +1030,7 @@ def _stager_worker(chunk, st: Stats, nmax, nfiles, scratch):
     os.environ["CLEMATIS_LOG_DIR"] = logdir
     sampled = False
     try:
-        for first, second in chunk:
+        for first, second, addr, nmax, nfiles in chunk:
             if second is None:
                 seqs = [(ST_CELLS[first],)]
             else:
@@ -957,7 +1038,8 @@ def _stager_worker(chunk, st: Stats, nmax, nfiles, scratch):
                         for rest in itertools.product(ST_CELLS, repeat=n - 2))
             for cells in seqs:
                 n = len(cells)
-                prep = _StagerPrep(cells)
+                prep = _StagerPrep(cells, addr)
+                bare_prep = None
                 st.add("transitions", n)
                 for lim in limit_classes(prep.ests):
                     for mode in (("capture", "files") if n <= nfiles else ("capture",)):
@@ -966,15 +1048,26 @@ def _stager_worker(chunk, st: Stats, nmax, nfiles, scratch):
                         st.add("validated")
                         st.add("stager_runs")
                         st.add("transitions", n)
+                        if addr != "bare":
+                            st.add("stager_runs_path_addressed")
                         if n > 1 and lim != BIG:
                             st.add("nontrivial")
-                        st.distinct("outcomes", ("stager", outcome, prep.mono, mode))
+                        st.distinct("outcomes", ("stager", outcome, prep.mono, mode, addr != "bare"))
                         if res:
                             case = {"kind": "stager", "cells": [list(c) for c in cells], "limit": lim, "mode": mode}
+                            if addr != "bare":
+                                case["addr"] = addr
+                                if bare_prep is None:
+                                    bare_prep = _StagerPrep(cells)
+                                res = _stager_classify(res, prep, bare_prep, lim, mode, logdir)
+                                st.add("transitions", n)
                             for sig, what in res:
                                 _viol(st, sig, what, case)
                         elif not sampled and n == 3 and outcome == "ok-drains":
-                            st.sample({"kind": "stager", "cells": [list(c) for c in cells], "limit": lim, "mode": mode})
+                            c = {"kind": "stager", "cells": [list(c) for c in cells], "limit": lim, "mode": mode}
+                            if addr != "bare":
+                                c["addr"] = addr
+                            st.sample(c)
                             sampled = True
     finally:
         _set_ci(old_ci)
@@ -1085,7 +1178,21 @@ def _records_match(name, inputs, got):
 
 def check_rewrite(case, scratch=None):
     """case: {kind:rewrite, file, recs:[indices into RW_RECS], pre: absent|stale, kill?: int, via?: container kind}"""
-    name, idxs, pre = case["file"], case["recs"], case["pre"]
+    addr = case.get("addr", "bare")
+    if addr != "bare":
+        # leg 9: the same rewrite with the stream addressed by a path; a signature that the bare-name twin reports as
+        # well keeps its name, the rest is marked ':path-addressed'
+        twin_case = {k: v for k, v in case.items() if k != "addr"}
+        res, outcome = _check_rewrite(case, scratch, addr)
+        if res:
+            twin = {sig for sig, _ in _check_rewrite(twin_case, scratch, "bare")[0]}
+            res = [(sig if sig in twin else sig + ":path-addressed", what) for sig, what in res]
+        return res, outcome
+    return _check_rewrite(case, scratch, "bare")
+
+
+def _check_rewrite(case, scratch, addr):
+    stream, idxs, pre = case["file"], case["recs"], case["pre"]
     via = case.get("via", "list")
     vtag = "" if via == "list" else (":one-shot-iterable" if via in RW_ONE_SHOT else ":" + via)
     recs = [copy.deepcopy(RW_RECS[i]) for i in idxs]
@@ -1097,6 +1204,9 @@ def check_rewrite(case, scratch=None):
     old_dir, old_ci = os.environ.get("CLEMATIS_LOG_DIR"), os.environ.get("CI")
     os.environ["CLEMATIS_LOG_DIR"] = d
     _set_ci("true")
+    name = _addr_path(addr, stream, d)         # the argument handed to rewrite_jsonl / append_jsonl
+    if addr != "bare":
+        _addr_mkdirs(d, name)
     path = os.path.join(d, name)
     res = []
     desc = "rewrite_jsonl(%r, %s%s) pre=%s" % (name, Jo(recs)[:300], "" if via == "list" else " handed over as %s" % via, pre)
@@ -1126,7 +1236,7 @@ def check_rewrite(case, scratch=None):
                 return [], "killed-old"
             try:
                 _, got = _read_jsonl(path)
-                bad = _records_match(name, recs, got)
+                bad = _records_match(stream, recs, got)
             except Exception as e:
                 bad = repr(e)
             if bad:
@@ -1144,7 +1254,7 @@ def check_rewrite(case, scratch=None):
             raw1, got = _read_jsonl(path)
         except Exception as e:
             return [("rewrite:malformed-file" + vtag, desc + ": %r" % (e,))], "malformed"
-        bad = _records_match(name, recs, got)
+        bad = _records_match(stream, recs, got)
         if bad:
             res.append(("rewrite:records-not-preserved" + vtag, desc + ": " + bad))
             return res, "not-preserved"
@@ -1156,6 +1266,9 @@ def check_rewrite(case, scratch=None):
         # compaction scenario: append -> read -> rewrite -> read (kind "gen": the old file is streamed lazily into the rewrite)
         d2 = _fresh_dir(scratch, "rwc")
         os.environ["CLEMATIS_LOG_DIR"] = d2
+        name = _addr_path(addr, stream, d2)
+        if addr != "bare":
+            _addr_mkdirs(d2, name)
         path = os.path.join(d2, name)
         for r in recs:
             clog.append_jsonl(name, copy.deepcopy(r))
@@ -1213,20 +1326,26 @@ def _rewrite_trace_len(scratch):
     return ctl.n
 
 
-def _rewrite_worker(chunk, st: Stats, scratch_root, nkill):
+def _rewrite_worker(chunk, st: Stats, scratch_root, nkill, amax):
     scratch = os.path.join(scratch_root, "rw-%d" % os.getpid())
     os.makedirs(scratch, exist_ok=True)
     for name, idxs, pre in chunk:
         kills = [(None, "list")] + ([(k, "list") for k in range(nkill + 2)] if len(idxs) <= 2 else [])
         # every other way of handing the records over (lists of <= 2 records)
         kills += [(None, via) for via in RW_VIA[1:]] if len(idxs) <= 2 else []
-        for kill, via in kills:
+        kills = [(kill, via, "bare") for kill, via in kills]
+        # leg 9: every list of <= amax records also with the stream addressed by a path (plain call + compaction scenario)
+        kills += [(None, "list", addr) for addr in ADDRS[1:]] if len(idxs) <= amax else []
+        for kill, via, addr in kills:
             case = {"kind": "rewrite", "file": name, "recs": list(idxs), "pre": pre}
             if kill is not None:
                 case["kill"] = kill
             if via != "list":
                 case["via"] = via
                 st.add("rewrite_container_cases")
+            if addr != "bare":
+                case["addr"] = addr
+                st.add("rewrite_cases_path_addressed")
             res, outcome = check_rewrite(case, scratch)
             st.add("states")
             st.add("transitions")
@@ -1234,7 +1353,7 @@ def _rewrite_worker(chunk, st: Stats, scratch_root, nkill):
             st.add("rewrite_cases")
             if idxs:
                 st.add("nontrivial")
-            st.distinct("outcomes", ("rewrite", outcome, pre, via in RW_ONE_SHOT))
+            st.distinct("outcomes", ("rewrite", outcome, pre, via in RW_ONE_SHOT, addr != "bare"))
             for sig, what in res:
                 _viol(st, sig, what, case)
     if chunk:
@@ -1596,14 +1715,26 @@ def _cap_flush_staged(pairs, limit, writer):
 _CAP_LAST = {"buffered": 0}
 
 
-def _cap_run(name, ci, entry, path, hist, root):
-    """one producer history on one path to the file, in a fresh sub-directory of ``root``.  Returns ([(sig, what)], outcome)."""
+def _cap_run(name, ci, entry, path, hist, root, addr="bare"):
+    """one producer history on one path to the file, in a fresh sub-directory of ``root``.  Returns ([(sig, what)], outcome).
+    ``addr``: how the producer addresses the stream (leg 9); a path-addressed run that violates is re-run under the bare
+    name: what the twin reports as well keeps its signature, the rest is marked ':path-addressed'."""
+    res, outcome = _cap_run1(name, ci, entry, path, hist, root, addr)
+    if res and addr != "bare":
+        buffered = _CAP_LAST["buffered"]
+        twin = {sig for sig, _ in _cap_run1(name, ci, entry, path, hist, root, "bare")[0]}
+        _CAP_LAST["buffered"] = buffered
+        res = [(sig if sig in twin else sig + ":path-addressed", what) for sig, what in res]
+    return res, outcome
+
+
+def _cap_run1(name, ci, entry, path, hist, root, addr):
     d = _fresh_dir(root, "c")
     old_dir = os.environ.get("CLEMATIS_LOG_DIR")
     os.environ["CLEMATIS_LOG_DIR"] = d
     _CAP_LAST["buffered"] = 0
     try:
-        return _cap_run_in(name, ci, entry, path, hist, d)
+        return _cap_run_in(name, ci, entry, path, hist, d, addr)
     finally:
         if old_dir is None:
             os.environ.pop("CLEMATIS_LOG_DIR", None)
@@ -1612,18 +1743,21 @@ def _cap_run(name, ci, entry, path, hist, root):
         shutil.rmtree(d, ignore_errors=True)
 
 
-def _cap_run_in(name, ci, entry, path, hist, d):
+def _cap_run_in(name, ci, entry, path, hist, d, addr="bare"):
     import clematis.engine.util.logmux as lmux
     from clematis.engine.orchestrator import logging as ologging
     cls = _stream_class(name)
     ci_on = isinstance(ci, str) and ci.lower() == "true"
-    fpath = os.path.join(d, name)
-    api = clog.append_jsonl if entry == "io" else ologging.append_jsonl
+    sname = _addr_path(addr, name, d)          # what the producer passes as the stream
+    if addr != "bare":
+        _addr_mkdirs(d, sname)
+    fpath = os.path.join(d, sname)
+    api = {"io": clog.append_jsonl, "orch": ologging.append_jsonl, "unbuf": clog._append_jsonl_unbuffered}[entry]
     ev = _cap_base(name)
     expected, later = [], []
     res = []
     buffered = 0
-    desc = "%s history %r via %s, path %s, CI=%r" % (name, list(hist), entry, path, ci)
+    desc = "%s history %r via %s, path %s, CI=%r" % (name if addr == "bare" else "%s addressed as %r" % (name, sname), list(hist), entry, path, ci)
 
     def produce():
         c = 0
@@ -1631,7 +1765,7 @@ def _cap_run_in(name, ci, entry, path, hist, d):
             if op == "A":
                 expected.append(copy.deepcopy(ev))
                 keep = Jo(ev)
-                api(name, ev)
+                api(sname, ev)
                 if Jo(ev) != keep:
                     res.append(("capture:append-mutates-record:%s" % cls, desc + ": the caller's record changed during append"))
             else:
@@ -1691,7 +1825,7 @@ def check_capture(case):
     old_dir = os.environ.get("CLEMATIS_LOG_DIR")
     os.environ["CLEMATIS_LOG_DIR"] = own
     try:
-        return _cap_run(case["stream"], case["ci"], case["entry"], case["path"], tuple(case["hist"]), own)[0]
+        return _cap_run(case["stream"], case["ci"], case["entry"], case["path"], tuple(case["hist"]), own, case.get("addr", "bare"))[0]
     finally:
         if old_dir is None:
             os.environ.pop("CLEMATIS_LOG_DIR", None)
@@ -1700,7 +1834,7 @@ def check_capture(case):
         shutil.rmtree(own, ignore_errors=True)
 
 
-def _capture_worker(chunk, st: Stats, scratch, cis):
+def _capture_worker(chunk, st: Stats, scratch, cis, amax):
     d = os.path.join(scratch, "cap-%d" % os.getpid())
     os.makedirs(d, exist_ok=True)
     old_dir = os.environ.get("CLEMATIS_LOG_DIR")
@@ -1710,24 +1844,33 @@ def _capture_worker(chunk, st: Stats, scratch, cis):
             napp = hist.count("A")
             first = hist.index("A")
             updated_after = any(op != "A" for op in hist[first + 1:])
+            # leg 9: histories of <= amax steps also with the stream addressed by a path
+            addrs = ADDRS if len(hist) <= amax else ADDRS[:1]
+            # ... and through the appender's second entry point (it by-passes a mux by design: write-through only)
+            entries = CAP_ENTRIES + (("unbuf",) if len(hist) <= amax else ())
             for name in CAP_STREAMS:
                 for ci in cis:
-                    for entry in CAP_ENTRIES:
-                        for path in CAP_PATHS:
-                            res, outcome = _cap_run(name, ci, entry, path, hist, d)
-                            st.add("states")
-                            st.add("validated")
-                            st.add("capture_cases")
-                            if _CAP_LAST["buffered"]:
-                                st.add("capture_buffered")      # anti-vacuity: the LogMux did defer the write (whatever the verdict)
-                            st.add("transitions", napp)
-                            if path != "direct" and updated_after:
-                                st.add("nontrivial")
-                            st.distinct("outcomes", ("capture", outcome, path, _stream_class(name), updated_after))
-                            if res:
-                                case = {"kind": "capture", "stream": name, "ci": ci, "entry": entry, "path": path, "hist": list(hist)}
-                                for sig, what in res:
-                                    _viol(st, sig, what, case)
+                    for entry in entries:
+                        for path in (CAP_PATHS if entry != "unbuf" else CAP_PATHS[:1]):
+                            for addr in addrs:
+                                res, outcome = _cap_run(name, ci, entry, path, hist, d, addr)
+                                st.add("states")
+                                st.add("validated")
+                                st.add("capture_cases")
+                                if addr != "bare":
+                                    st.add("capture_cases_path_addressed")
+                                if _CAP_LAST["buffered"]:
+                                    st.add("capture_buffered")      # anti-vacuity: the LogMux did defer the write (whatever the verdict)
+                                st.add("transitions", napp)
+                                if path != "direct" and updated_after:
+                                    st.add("nontrivial")
+                                st.distinct("outcomes", ("capture", outcome, path, _stream_class(name), updated_after, addr != "bare"))
+                                if res:
+                                    case = {"kind": "capture", "stream": name, "ci": ci, "entry": entry, "path": path, "hist": list(hist)}
+                                    if addr != "bare":
+                                        case["addr"] = addr
+                                    for sig, what in res:
+                                        _viol(st, sig, what, case)
         if chunk:
             st.sample({"kind": "capture", "stream": "scheduler.jsonl", "ci": "true", "entry": "io", "path": "flush", "hist": list(chunk[0])})
     finally:
@@ -2371,8 +2514,13 @@ def run(run: Run) -> None:
     nfiles = 3 if th else 2
     run.notes["stager_max_records"] = nmax
     nc = len(ST_CELLS)
-    prefixes = [(a, None) for a in range(nc)] + [(a, b) for a in range(nc) for b in range(nc)]
-    run.pmap(_stager_worker, prefixes, extra=(nmax, nfiles, run.scratch), chunks=len(prefixes))
+    pre2 = [(a, None) for a in range(nc)] + [(a, b) for a in range(nc) for b in range(nc)]
+    prefixes = [(a, b, "bare", nmax, nfiles) for a, b in pre2]
+    # the same protocol with the streams addressed by paths (leg 9): shorter histories, every addressing
+    amax = {ad: (nmax - 1 if ad in ("sub", "mixed") else nmax - 2) for ad in ST_ADDRS if ad != "bare"}
+    run.notes["stager_max_records_path_addressed"] = dict(amax)
+    prefixes += [(a, b, ad, amax[ad], 2) for ad in sorted(amax) for a, b in pre2]
+    run.pmap(_stager_worker, prefixes, extra=(run.scratch,), chunks=len(prefixes))
     # (4) rewrite
     nkill = _rewrite_trace_len(run.scratch)
     run.notes["rewrite_os_calls"] = nkill
@@ -2383,7 +2531,9 @@ def run(run: Run) -> None:
             for n in range(0, rmax + 1):
                 for idxs in itertools.product(range(len(RW_RECS)), repeat=n):
                     rcases.append((name, idxs, pre))
-    run.pmap(_rewrite_worker, rcases, extra=(run.scratch, nkill))
+    ramax = 2 if th else 1
+    run.notes["rewrite_max_records_path_addressed"] = ramax
+    run.pmap(_rewrite_worker, rcases, extra=(run.scratch, nkill, ramax))
     # (5) rotation
     depth = 4 if th else 3
     run.notes["rotation_depth"] = depth
@@ -2397,7 +2547,9 @@ def run(run: Run) -> None:
     cmax = 5 if th else 4
     cis = (None, "true", "false", "TRUE") if th else (None, "true")
     run.notes["capture_max_history"] = cmax
-    run.pmap(_capture_worker, list(capture_histories(cmax)), extra=(run.scratch, cis))
+    camax = 3 if th else 2
+    run.notes["capture_max_history_path_addressed"] = camax
+    run.pmap(_capture_worker, list(capture_histories(cmax)), extra=(run.scratch, cis, camax))
     if not run.n.get("capture_buffered"):
         raise HarnessError("seam bypassed: no append was buffered by an active LogMux (capture leg would be vacuous)")
     # (7) concurrent compaction
@@ -2433,6 +2585,11 @@ def run(run: Run) -> None:
         "stager: every arrival sequence of 1..%d records over 12 cells (2 turns x 3 streams x 2 slices) x every limit class "
         "(1, prefix sums of the estimates -1/0/+1, 32 MiB), sequences of <=%d records additionally through the real file writer, "
         "non-trivial = >=2 records and a finite limit; "
+        "addressing: the stager enumeration repeated for sequences of <=%d records with every stream addressed as dir/NAME and with a different "
+        "addressing per stream (dir/t1.jsonl, bare turn.jsonl, absolute zz_custom.jsonl), for <=%d records with ./NAME, d1/scheduler.jsonl/NAME and "
+        "an absolute path (<=2 records also through the real writer, directories provided by the harness); rewrite lists of <=%d records and "
+        "capture histories of <=%d steps x the 4 path addressings (capture histories of that length also through _append_jsonl_unbuffered, "
+        "write-through); same oracle with name = basename, a violating addressed run is classified against its bare-name twin; "
         "rewrite: every record list of length 0..%d over 9 records x 3 streams x file absent/stale, lists <=2 also with a kill before each os call "
         "and handed over as every container kind of Iterable[dict] (list, tuple, dict view, iterator, generator; the generator of the compaction "
         "scenario streams the file being compacted lazily); "
@@ -2453,7 +2610,8 @@ def run(run: Run) -> None:
         "to a second stream, compaction of X (read + rewrite_jsonl), rotate_logs.main over the directory} x X in t1.jsonl/zz_custom.jsonl x backups "
         "1/2 x max-bytes 1/150 (rotate always / from the second record on), each history on a directory of its own, the directory compared with "
         "the reference model (live record list + generations) after EVERY step; non-trivial = an append to X after its file was replaced or renamed"
-        % ("-2" if th else "", " / 5 KiB" if th else "", "4096/8192/131072" if th else "4096/8192", nmax, nfiles, rmax, depth,
+        % ("-2" if th else "", " / 5 KiB" if th else "", "4096/8192/131072" if th else "4096/8192", nmax, nfiles,
+           nmax - 1, nmax - 2, ramax, camax, rmax, depth,
            cmax, "/".join(repr(c) for c in cis), len(ccases), "-3" if th else "",
            "; the t1.jsonl two-writer programs also with a reader thread whose one whole-file read is placed by the schedule" if th else "",
            " (<= 2 for the two-writer programs on custom.jsonl and one two-target program)" if th else "",
@@ -2480,6 +2638,11 @@ def run(run: Run) -> None:
                "through their public entry points; histories start from an empty directory and keep one backup count, so generations are "
                "contiguous; an EMPTY file left in a slot that should be vacant is tolerated; externally deleted files / directories are not "
                "part of the alphabet (the statement names compaction and rotation only)")
+    run.assume("addressing: the NAME of a stream (stage ordinal, identity class) is the basename of the path it is addressed by (docstrings "
+               "of default_key_for and rewrite_jsonl; every writer computes it that way); intermediate directories of a path-addressed "
+               "stream exist before the first write (the writers are only documented to create the logs directory); a payload staged "
+               "under a path but not yet written may be identity-normalised or still as given; two different paths naming one file "
+               "(aliases) are not in the alphabet")
     run.assume("rotation threshold (size >= max-bytes rotates) taken from the script's documentation; generations beyond the requested N are not constrained")
 
 
